@@ -49,12 +49,17 @@ THEOREMS = [
     "FaxVerif.C14.refusal_kind",
     "FaxVerif.C14.effective_once",
     "FaxVerif.C14.fetch_order",
+    "FaxVerif.C14.ok_to_add",
+    "FaxVerif.C14.info_lists",
     # whole runs
     "FaxVerif.C14.package",
     "FaxVerif.C14.package_atlas",
     "FaxVerif.C14.package_cms_aod",
     "FaxVerif.C14.package_cms_miniaod",
+    "FaxVerif.C14.line_placed",
     "FaxVerif.C14.injected_line_placed",
+    "FaxVerif.C14.cms_include_placed",
+    "FaxVerif.C14.repeat_invariant",
 ]
 RULE = (
     "three seeded streams. (A) contexts for the real jinja2: for every list variable of the backend's templates 0-4 "
@@ -550,7 +555,7 @@ def run_stream_a(ctx, n: int):
             continue
         if "err" in r:
             ctx.count("A:jinja-error")
-            ctx.violation(key="jinja:" + backend + ":" + json.dumps(info, sort_keys=True, ensure_ascii=False), what="jinja2 cannot render a template of the package: " + r["err"],
+            ctx.violation(key=key_of({"stream": "A", "backend": backend, "lists": info}), what="jinja2 cannot render a template of the package: " + r["err"],
                           case={"stream": "A", "backend": backend, "lists": info}, observed=r, how="render the backend's template directory with jinja2.Environment(loader=FileSystemLoader(dir)) and the lists of `case`")
             continue
         if not s.get("holds", False):
@@ -566,9 +571,42 @@ def run_stream_a(ctx, n: int):
             ctx.disagreement("jinja2-render", {"backend": backend, "lists": info, "file": f0}, m.get("files", {}).get(f0), r["files"].get(f0))
 
 
+def exhaustive_mds(fields: List[str], maxlen: int):
+    """Every metadata list of <= maxlen items over a small alphabet of items: two names x presence /
+    emptiness / two contents of one field x presence of another field, an unknown key, a missing
+    name, the empty dictionary, a non-inject item carrying one of the names."""
+    import itertools
+
+    f1, f2 = fields[0], fields[-1]
+    forms: List[Dict[str, Any]] = []
+    for name in ("a", "b"):
+        for v1 in (None, [], ["x"], ["y"]):
+            for v2 in (None, ["x"]):
+                m: Dict[str, Any] = {"metadata_type": "inject_code", "name": name}
+                if v1 is not None:
+                    m[f1] = v1
+                if v2 is not None:
+                    m[f2] = v2
+                forms.append(m)
+    forms.append({"metadata_type": "inject_code", "name": "a", "no_such_field": ["x"]})
+    forms.append({"metadata_type": "inject_code", f1: ["x"]})
+    forms.append({"metadata_type": "inject_code"})
+    forms.append({"metadata_type": "add_job_script", "name": "a", "script": ["s"], "depends_on": []})
+    for k in range(maxlen + 1):
+        for combo in itertools.product(forms, repeat=k):
+            yield [copy.deepcopy(m) for m in combo]
+
+
 def run_stream_b(ctx, n: int, fields: List[str]):
     """model processMd vs real process_metadata; SpecProcess on the real outcome."""
     cases = []
+    nex = 0
+    if fields:
+        for mds in exhaustive_mds(fields, 2 if ctx.tier == "quick" else 3):
+            cases.append((mds, real_process(mds, fields)))
+            nex += 1
+    ctx.count("B:exhaustive", nex)
+    ctx.extra_cov["exhaustive_part"] = "stream B: all metadata lists of <=%d items over 20 item forms (2 names x 4 states of one field x 2 states of another, unknown key, missing name, empty dictionary, a job-script item of the same name)" % (2 if ctx.tier == "quick" else 3)
     for i in range(n):
         mds = rand_mds(ctx.rng, fields)
         cases.append((mds, real_process(mds, fields)))
@@ -693,6 +731,15 @@ def run_stream_c(ctx, n: int, fields: List[str]):
     return base
 
 
+def key_of(inp: Dict[str, Any]) -> str:
+    """Canonical form of a failing input."""
+    if inp.get("stream") == "A":
+        return "render:" + inp["backend"] + ":" + json.dumps(inp["lists"], sort_keys=True, ensure_ascii=False)
+    if inp.get("stream") == "B":
+        return "process:" + json.dumps(inp["mds"], sort_keys=True, ensure_ascii=False)
+    return "package:" + inp["backend"] + ":" + json.dumps(inp["mds"], sort_keys=True, ensure_ascii=False)
+
+
 def replay_known(ctx, fields: List[str]):
     """Findings stream: every listed input is replayed on the real code."""
     base = Baseline(ctx, fields)
@@ -814,17 +861,25 @@ def run(ctx):
     run_stream_b(ctx, sizes["B"], fields)
     ctx.check_time()
     run_stream_c(ctx, sizes["C"], fields)
-    # present the first failing input in its smallest form
-    if ctx.violations and isinstance(ctx.violations[0].get("case"), dict) and "stream" in ctx.violations[0]["case"]:
-        try:
-            v0 = ctx.violations[0]
-            base = Baseline(ctx, fields)
-            small = shrink(ctx, v0["case"], base, fields)
-            rc, v = replay_input(ctx, small, base, fields)
-            if v is not None and small != v0["case"]:
-                ctx.violations[0] = {**v0, "case": small, "what": v["what"], "observed": v.get("observed"), "unshrunk_case": v0["case"]}
-        except Exception as e:  # shrinking is a convenience
-            ctx.notes.append(f"shrinking raised {type(e).__name__}: {e}")
+    # present failing inputs in their smallest form; a shrunk input that is a listed finding is reported as such
+    if ctx.violations:
+        recorded, ctx.violations = ctx.violations, []
+        base = Baseline(ctx, fields)
+        for v0 in recorded[:3]:
+            case0 = v0.get("case")
+            if not (isinstance(case0, dict) and case0.get("stream") in ("A", "B", "C")) or str(v0.get("key", "")).startswith(("regressed:", "corpus:")):
+                ctx.violations.append(v0)
+                continue
+            try:
+                small = shrink(ctx, case0, base, fields)
+                rc, v = replay_input(ctx, small, base, fields)
+            except Exception as e:  # shrinking is a convenience
+                ctx.notes.append(f"shrinking raised {type(e).__name__}: {e}")
+                small, v = case0, None
+            if v is None:
+                ctx.violations.append(v0)
+            else:
+                ctx.violation(key=key_of(small), what=v["what"], case=small, observed=v.get("observed"), how=v0.get("replay_how", ""))
     ctx.extra_cov["exhaustive"] = False
     ctx.extra_cov["streams"] = sizes
     ctx.extra_cov["generated_from_source"] = {k: {"dir": e["dir"], "files": e["files"]} for k, e in ctx.c14_templates.backends.items()}
